@@ -16,6 +16,8 @@ import (
 	"time"
 
 	"google.golang.org/grpc"
+	"google.golang.org/grpc/codes"
+	"google.golang.org/grpc/status"
 
 	"github.com/oxia-db/oxia/common/compare"
 	"github.com/oxia-db/oxia/oxia"
@@ -109,20 +111,36 @@ type scriptErr struct{ code int }
 
 func (e *scriptErr) Error() string { return fmt.Sprintf("scripted shard error %d", e.code) }
 
+// itemErr: error items below 1000 are opaque errors; 1000+c is the gRPC status with code c (1 Canceled,
+// 4 DeadlineExceeded, 13 Internal, 14 Unavailable, 100.. the oxia codes), the way a per-shard stream can end.
+func itemErr(code int) error {
+	if code >= 1000 {
+		return status.Error(codes.Code(code-1000), "scripted stream status")
+	}
+	return &scriptErr{code}
+}
+
+func codeOfErr(err error) int {
+	var se *scriptErr
+	if errors.As(err, &se) {
+		return se.code
+	}
+	if st, ok := status.FromError(err); ok && st.Code() != codes.OK {
+		return 1000 + int(st.Code())
+	}
+	return -1
+}
+
 func toGetResult(it mitem) oxia.GetResult {
 	if it.isErr {
-		return oxia.GetResult{Err: &scriptErr{it.payload}}
+		return oxia.GetResult{Err: itemErr(it.payload)}
 	}
 	return oxia.GetResult{Key: it.key, Version: oxia.Version{VersionId: int64(it.payload)}}
 }
 
 func fromGetResult(r oxia.GetResult) mitem {
 	if r.Err != nil {
-		var se *scriptErr
-		if errors.As(r.Err, &se) {
-			return mitem{isErr: true, payload: se.code}
-		}
-		return mitem{isErr: true, payload: -1}
+		return mitem{isErr: true, payload: codeOfErr(r.Err)}
 	}
 	return mitem{key: r.Key, payload: int(r.Version.VersionId)}
 }
@@ -180,6 +198,10 @@ func runMerge(chans [][]mitem, r *hx.Rng) (out []mitem, panicked bool, timedOut 
 	}
 }
 
+// sigOrder / sigLost: the signatures used for an out-of-order and for a lossy merge (the C11 leg reports them as
+// scan:... , the C20 legs as merge:...)
+var sigOrder, sigLost, sigDup, sigAfterErr = "merge:output-not-in-key-order", "merge:lost-item", "merge:duplicated-or-invented-item", "merge:continues-after-error"
+
 func checkMergeSpec(o *hxOut, chans [][]mitem, out []mitem, line string, res string) {
 	// multiset of inputs
 	in := map[string]int{}
@@ -200,18 +222,18 @@ func checkMergeSpec(o *hxOut, chans [][]mitem, out []mitem, line string, res str
 	for i, it := range out {
 		in[it.String()]--
 		if in[it.String()] < 0 {
-			o.Violation("merge:duplicated-or-invented-item", line+" => "+res)
+			o.Violation(sigDup, line+" => "+res)
 			return
 		}
 		if it.isErr && i != len(out)-1 {
-			o.Violation("merge:continues-after-error", line+" => "+res)
+			o.Violation(sigAfterErr, line+" => "+res)
 			return
 		}
 	}
 	if !hasErr {
 		for _, c := range in {
 			if c != 0 {
-				o.Violation("merge:lost-item", line+" => "+res)
+				o.Violation(sigLost, line+" => "+res)
 				return
 			}
 		}
@@ -222,7 +244,7 @@ func checkMergeSpec(o *hxOut, chans [][]mitem, out []mitem, line string, res str
 			left += c
 		}
 		if left != 0 {
-			o.Violation("merge:lost-item", line+" => "+res)
+			o.Violation(sigLost, line+" => "+res)
 			return
 		}
 	}
@@ -232,7 +254,7 @@ func checkMergeSpec(o *hxOut, chans [][]mitem, out []mitem, line string, res str
 				break
 			}
 			if compare.CompareWithSlash([]byte(out[i-1].key), []byte(out[i].key)) > 0 {
-				o.Violation("merge:output-not-in-key-order", line+" => "+res)
+				o.Violation(sigOrder, line+" => "+res)
 				return
 			}
 		}
@@ -534,7 +556,7 @@ func (s *fakeListStream) Recv() (*proto.ListResponse, error) {
 	s.items = s.items[1:]
 	runtime.Gosched()
 	if it.isErr {
-		return nil, &scriptErr{it.payload}
+		return nil, itemErr(it.payload)
 	}
 	return &proto.ListResponse{Keys: []string{it.key}}, nil
 }
@@ -550,7 +572,7 @@ func runList(chans [][]mitem) (out []mitem, timedOut bool) {
 			items := chans[int(*req.Shard)]
 			if len(items) > 0 && items[0].isErr && items[0].payload%2 == 0 {
 				// an even error code in first position: the executor itself fails
-				return nil, &scriptErr{items[0].payload}
+				return nil, itemErr(items[0].payload)
 			}
 			return &fakeListStream{items: append([]mitem(nil), items...)}, nil
 		},
@@ -565,12 +587,7 @@ func runList(chans [][]mitem) (out []mitem, timedOut bool) {
 				return out, false
 			}
 			if lr.Err != nil {
-				var se *scriptErr
-				code := -1
-				if errors.As(lr.Err, &se) {
-					code = se.code
-				}
-				out = append(out, mitem{isErr: true, payload: code})
+				out = append(out, mitem{isErr: true, payload: codeOfErr(lr.Err)})
 			}
 			for _, k := range lr.Keys {
 				out = append(out, mitem{key: k})
@@ -579,6 +596,111 @@ func runList(chans [][]mitem) (out []mitem, timedOut bool) {
 			expiredWaits.Add(1)
 			return out, true
 		}
+	}
+}
+
+// ---------------------------------------------------------------- RangeScan through the client
+
+type scriptScanStream struct {
+	grpc.ClientStream
+	items []mitem
+	chunk int
+}
+
+// Recv delivers the records in messages of varying size; an error item ends the stream with that error.
+func (s *scriptScanStream) Recv() (*proto.RangeScanResponse, error) {
+	if len(s.items) == 0 {
+		return nil, io.EOF
+	}
+	if s.items[0].isErr {
+		err := itemErr(s.items[0].payload)
+		s.items = nil
+		return nil, err
+	}
+	resp := &proto.RangeScanResponse{}
+	n := 1 + s.chunk%3
+	s.chunk++
+	for len(s.items) > 0 && !s.items[0].isErr && n > 0 {
+		it := s.items[0]
+		k := it.key
+		resp.Records = append(resp.Records, &proto.GetResponse{Status: proto.Status_OK, Key: &k,
+			Version: &proto.Version{VersionId: int64(it.payload)}})
+		s.items = s.items[1:]
+		n--
+	}
+	runtime.Gosched()
+	return resp, nil
+}
+
+// runScan: the real clientImpl.RangeScan (rangeScanFromShard per shard + aggregateAndSortRangeScanAcrossShards) over
+// len(chans) >= 1 shards; shard i streams chans[i].
+func runScan(chans [][]mitem) (out []mitem, timedOut bool) {
+	shards := make([]int64, len(chans))
+	for i := range shards {
+		shards[i] = int64(i)
+	}
+	exec := &oxia.VerifExecutor{
+		RangeScan: func(_ context.Context, req *proto.RangeScanRequest) (proto.OxiaClient_RangeScanClient, error) {
+			items := chans[int(*req.Shard)]
+			if len(items) > 0 && items[0].isErr && items[0].payload%2 == 0 {
+				return nil, itemErr(items[0].payload)
+			}
+			return &scriptScanStream{items: append([]mitem(nil), items...), chunk: int(*req.Shard)}, nil
+		},
+	}
+	c, closeFn := oxia.NewVerifClient(shards, func(string) int64 { return 0 }, exec, 0, 10, 1<<20, 5*time.Second)
+	defer func() { _ = closeFn() }()
+	ch := c.RangeScan(context.Background(), "", "")
+	for {
+		select {
+		case gr, ok := <-ch:
+			if !ok {
+				return out, false
+			}
+			out = append(out, fromGetResult(gr))
+		case <-expired():
+			expiredWaits.Add(1)
+			return out, true
+		}
+	}
+}
+
+// checkFanoutSpec: the result of a multi-shard List / RangeScan is the union of what the shards streamed, or an error
+// is delivered. ordered: the result stops at the first error it delivers (range scan), else every item is delivered.
+func checkFanoutSpec(o *hxOut, chans [][]mitem, out []mitem, ordered bool, line string, res string) {
+	in := map[string]int{}
+	anyErr := false
+	total := 0
+	for _, ch := range chans {
+		for _, it := range ch {
+			in[it.String()]++
+			total++
+			if it.isErr {
+				anyErr = true
+			}
+		}
+	}
+	outErr := false
+	for _, it := range out {
+		in[it.String()]--
+		if in[it.String()] < 0 {
+			o.Violation("fanout:result-not-union", line+" => "+res+" (item "+it.String()+" duplicated or invented)")
+			return
+		}
+		if it.isErr {
+			outErr = true
+		}
+	}
+	if anyErr && !outErr {
+		o.Violation("fanout:shard-stream-error-swallowed", line+" => "+res)
+		return
+	}
+	if !anyErr && len(out) != total {
+		o.Violation("fanout:result-not-union", line+" => "+res+" (items lost)")
+		return
+	}
+	if !ordered && len(out) != total {
+		o.Violation("fanout:result-not-union", line+" => "+res+" (items lost)")
 	}
 }
 
